@@ -534,3 +534,10 @@ PROPS["C18"].setdefault("not_decided", []).append("that the tree scans in front 
 for _p in ("C02", "C06"):
     PROPS[_p]["units"].append(dict(template="units/reconcile.rs", slice=["reconcile"]))
     PROPS[_p]["clauses"]["reconcile (tree level)"] = "exactly one non-trivial table decision per path of the union of the three listings, in path order: no path twice (a BothChanged conflict applied twice overwrites the preserved loser), none dropped (proved in unit reconcile; shared with C18)"
+
+
+# ---- round 6 ----
+PROPS["C04"]["twins"].append(dict(name="is_excluded", repo_fn="src/bin/copia/plan.rs is_excluded", quick=3, thorough=60,
+    contract="is_excluded against the reference exclude rule, incl. names and patterns with 2-, 3- and 4-byte characters (`?` is one CHARACTER)"))
+PROPS["C04"]["fallback_searches"] += ["is_excluded", "glob_match"]
+PROPS["C15"]["twins"].append(dict(BISYNC_TWIN, only_re=r"\(C15\)"))
